@@ -70,7 +70,7 @@ CFG = {
         rule="distinct scenarios whose run terminated normally after >=1 main-loop iteration (budget, counters, non-progress bound and message judged)",
     ),
     "C04": dict(
-        profile=dict(name="c04", noise=["none"], noise_w=[1], fam_w=[4, 2, 3, 1, 2, 1, 3], where_w=[3, 2, 3, 2, 1], cons_p=0.3),
+        profile=dict(name="c04", noise=["none"], noise_w=[1], fam_w=[4, 2, 3, 1, 2, 1, 3], where_w=[3, 2, 3, 2, 1], cons_p=0.3, knobs=dict(tol_noise=0.2)),
         n=dict(quick=128, thorough=4000),
         rule="distinct deterministic scenarios completed with >=1 poll and >=1 search step",
     ),
